@@ -535,8 +535,9 @@ func (vfs *MemFS) mkdirAll(path string, perm fs.FileMode) (again bool, err error
 		return false, &fs.PathError{Op: op, Path: pi.LeftPart(), Err: vfs.err.NotADirectory}
 	}
 
-	if !vfs.isNotExist(err) {
-		// the search was stopped by an error (too many levels of symbolic links for example).
+	if !vfs.isNotExist(err) || parent == nil {
+		// the search was stopped by an error (too many levels of symbolic links for example),
+		// or there is no directory to start from (a volume that does not exist).
 		return false, &fs.PathError{Op: op, Path: path, Err: err}
 	}
 
